@@ -1,6 +1,7 @@
 import Indi.Properties.C02
 import Indi.Properties.Wire
 import Indi.Properties.Decisions
+import Indi.Properties.Spellings
 #print axioms Indi.Buf.C02_abstract
 #print axioms Indi.Buf.C02_fragmentation_independent
 #print axioms Indi.Buf.generated_tagsOk
@@ -14,3 +15,6 @@ import Indi.Properties.Decisions
 #print axioms Indi.Xml.parseDoc_opener
 #print axioms Indi.Decisions.bufLoopGuard_agrees
 #print axioms Indi.Decisions.bufCleanupDue_agrees
+#print axioms Indi.Xml.admissible_spelling
+#print axioms Indi.Xml.parseDoc_spell_prefix
+#print axioms Indi.Xml.spellElem_ending
